@@ -449,6 +449,16 @@ def branching_bfs_case(p, res):
         return ("default", None)
     ops.append(("set_default_branch", setdef))
 
+    def setdef_alias(s):
+        # the SAME model object serves as branch 'a' and as the default (removing the branch later must not take the default away)
+        if not any(r[0] == "a" for r in s.ref):
+            return ("default", None)
+        m_ = s.model.branches["a"][1]
+        s.model.set_default_branch(m_)
+        s.default = getattr(m_, "tag", "?")
+        return ("default", None)
+    ops.append(("set_default_branch(model of a)", setdef_alias))
+
     def run(s):
         del s.sink.items[:]
         s.touched = s.touched | {r[0] for r in s.ref}
